@@ -1,7 +1,8 @@
 #!/usr/bin/env python3
 """Every seeded change against every check (quick tier), in an isolated copy.
 
-  seed_matrix_iso.py [--out seeded/matrix.json] [--seeds C01-A,C01-B,...] [--checks C01,C02,...] [--threads N]
+  seed_matrix_iso.py [--out seeded/matrix.json] [--seeds C01-A,C01-B,...] [--checks C01,C02,...] [--threads N] [--own] [--mx DIR]
+  (--own: every seed against the check of its own property only)
 
 The matrix takes hours; so that /repo and /verif stay usable meanwhile it works on a scratch git
 worktree of /repo (/tmp/mx/repo, at HEAD) and a copy of /verif (/tmp/mx/verif) whose harness depends
@@ -71,7 +72,7 @@ def main():
                 continue
             row = {}
             t0 = time.time()
-            for c in checks:
+            for c in ([s[:3]] if "--own" in sys.argv else checks):
                 rc, out = sh("nice -n 10 ./run %s quick" % c, cwd=MX + "/verif", env=env)
                 keys = [l.strip()[:240] for l in out.splitlines() if l.startswith("  key=")]
                 row[c] = {"exit": rc, "violating_keys": len([l for l in out.splitlines() if l.startswith("VIOLATION")]), "first_key": keys[0] if keys else None}
@@ -80,7 +81,7 @@ def main():
             sh("git checkout -- . && git clean -fdq", cwd=MX + "/repo")
             result[s] = row
             json.dump(result, open(out_file, "w"), indent=1)
-            print("%s %4.0fs  %s" % (s, time.time() - t0, " ".join("%s:%d" % (c, row[c]["exit"]) for c in checks if row[c]["exit"] != 0)), flush=True)
+            print("%s %4.0fs  %s" % (s, time.time() - t0, " ".join("%s:%d" % (c, row[c]["exit"]) for c in row if row[c]["exit"] != 0)), flush=True)
     finally:
         sh("git -C /repo worktree remove --force %s/repo" % MX)
         shutil.rmtree(MX, ignore_errors=True)
